@@ -910,7 +910,7 @@ type rpfContinue struct{}
 // foldLoopBodies folds, for fixed values of the loop variables (in env), the statements of the outer loop
 // body that precede the inner loop and then the inner loop's body. `continue` ends the fold normally.
 func foldLoopBodies(c *Ctx, p *packages.Package, env map[types.Object]*Val, hooks *rpf, outer, inner *ast.ForStmt) (err error) {
-	r := &rpf{c: c, p: p, env: env, callHook: hooks.callHook, selHook: hooks.selHook, idxHook: hooks.idxHook, stHook: hooks.stHook}
+	r := &rpf{c: c, p: p, env: env, callHook: hooks.callHook, selHook: hooks.selHook, idxHook: hooks.idxHook, stHook: hooks.stHook, multiHook: hooks.multiHook}
 	defer func() {
 		if x := recover(); x != nil {
 			if re, ok := x.(*rpfErr); ok {
